@@ -164,7 +164,7 @@ class Gen:
                      and (kind_pref is None or r.cls in kind_pref)]
             if cands and rng.random() < 0.6:
                 return rng.choice(cands)
-            simple = kind_pref[0] if kind_pref else rng.choice(["Dense", "Dense", "Root", "Toeplitz", "Diag"])
+            simple = kind_pref[0] if kind_pref else rng.choice(["Dense", "Dense", "Root", "Toeplitz", "Diag", "Identity", "ConstantDiag", "Chol"])
             sops, so = self.build(w, {"DenseLinearOperator": "Dense", "DiagLinearOperator": "Diag", "ConstantDiagLinearOperator": "ConstantDiag",
                                       "KroneckerProductLinearOperator": "Kronecker", "LowRankRootLinearOperator": "LowRankRoot",
                                       "RootLinearOperator": "Root", "ToeplitzLinearOperator": "Toeplitz"}.get(simple, simple),
